@@ -220,6 +220,22 @@ pub fn run(tier: Tier) -> i32 {
             "layouts": fam.layouts.len(), "shapes": fam.total(), "modes": modes.len()}));
         acc = acc.merge(a);
     }
+    // almost straight three-point perfect curves (fewest arc sub-points)
+    {
+        let shapes = super::curves::near_collinear_arcs();
+        let total = shapes.len() as u64 * modes.len() as u64;
+        let a = par_range(total, |idx, acc| {
+            let mode = modes[(idx % modes.len() as u64) as usize];
+            let pts = &shapes[(idx / modes.len() as u64) as usize];
+            acc.states += 1;
+            let mut bufs = CurveBuffers::default();
+            if let Err(p) = guarded(|| check_shape(mode, pts, &mut bufs, acc)) {
+                acc.violation(Violation::new("panic", format!("{mode:?} {}: {p}", points_json(pts)), case_json(mode, pts, None)));
+            }
+        });
+        bounds.push(json!({"almost_straight_three_point_perfect_curves": shapes.len(), "modes": modes.len()}));
+        acc = acc.merge(a);
+    }
     let summary = Summary {
         rule: "every control-point list of each family (first point fixed, the others on an integer grid, every type layout) \
                x modes: natural curve and the requested lengths {1e-3, 0.3, 0.37n, 0.5n, n-1, n-1e-9, n, n+1e-9, 1.5n+1, 1e5} \
